@@ -266,6 +266,7 @@ func runC14(c *core.Ctx) {
 	jobs, deaths := pool.Stats()
 	c.Count("l2_jobs", jobs)
 	c.Count("l2_process_deaths", deaths)
+	c.Count("l2_priming_runs", pool.Primed())
 	_ = os.Remove
 	_ = filepath.Join
 }
